@@ -5,6 +5,7 @@ go 1.14
 require (
 	github.com/hashicorp/go-argmapper v0.0.0
 	github.com/hashicorp/go-hclog v0.14.0
+	github.com/hashicorp/go-multierror v1.1.0
 )
 
 replace github.com/hashicorp/go-argmapper => /repo
